@@ -10,8 +10,11 @@ D: Chain.tla -- an adversary tampers with up to MaxFaults items of the upstream 
    (C07_SecureImpliesChain, C07_InsecureOnlyProven, C07_TamperNeverDowngrades, C07_NegSecure,
    C07_AD, C07_DepthBounded) for every world, query and fault set; witnesses are reachable; the
    rules found in the code (MC_Chain_AsIs) are each refuted.
-R: Gen_Chain enumerates worlds x queries x fault sets (0, 1, 2 faults on any item of any upstream
-   response) with, per item of the final response, whether Secure / Insecure is allowed;
+R: Gen_Chain enumerates worlds (links: DS / mixed supported+unsupported DS / no DS / unsupported
+   only / phantom DS) x queries (positive, NODATA, NXDOMAIN, alias into a name next to a wildcard,
+   wildcard-expanded) x fault sets (0, 1, 2 faults on any item of any upstream response, among them
+   "wildSub" -- wildcard RRset substituted for an alias target --, "reorder" of a DS RRset and the
+   scripted multi-response attack "foreignDs") with, per item of the final response, whether Secure / Insecure is allowed;
    drive_chain builds every world from real InMemoryZoneHandlers signed by the server's own signer
    with generated keys, answers the validator's upstream queries from the right zone's Catalog,
    applies the faults to the decoded response and runs (stage one)
@@ -116,7 +119,7 @@ def classify(what, item, c):
     it is about.  (Every fault set of at most two faults is enumerated: a defect that does not need
     a named fault shows up in a case without it.)"""
     faults, diag = c["faults"], c["diag"]
-    fields = {"verdict": what, "item": item or "response", "n_faults": len(faults),
+    fields = {"verdict": what, "item": item or "response", "n_faults": len(faults), "q": c["q"],
               "faults": "+".join(sorted(kind(f) for f in faults)) or "none"}
     for f in faults:
         fields[kind(f)] = True
